@@ -117,7 +117,9 @@ func (g *gen) genString(maxLen int, text bool) string {
 	}
 	var sb strings.Builder
 	for i := 0; i < n; i++ {
-		if text || g.pf.Values == "plain" || g.r.Chance(0.7) {
+		if text && g.pf.Values != "plain" && g.r.Chance(0.08) {
+			sb.WriteString([]string{"é", "漢", "\"", "\t", "ß", "\x01", "–"}[g.r.Intn(7)])
+		} else if text || g.pf.Values == "plain" || g.r.Chance(0.7) {
 			const ok = "abcdefghijklmnopqrstuvwxyzABCDEFGHIJKLMNOPQRSTUVWXYZ0123456789 _-;,.()*=<>!"
 			sb.WriteByte(ok[g.r.Intn(len(ok))])
 		} else {
